@@ -166,8 +166,34 @@ class Creators:
         self.process_line_queue()
     elif rt == "S":
       if isinstance(gfa_line, str):
-        gfa_line = gfapy.Line(gfa_line, vlevel=self._vlevel,
-            dialect=self._dialect)
+        string = gfa_line
+        try:
+          gfa_line = gfapy.Line(string, vlevel=self._vlevel,
+              dialect=self._dialect)
+        except gfapy.FormatError:
+          # not a segment of the version its syntax suggests: a GFA2 segment
+          # whose sequence looks like a tag is taken for a GFA1 segment
+          try:
+            gfa_line = gfapy.Line(string, vlevel=self._vlevel,
+                version="gfa2", dialect=self._dialect)
+          except gfapy.Error:
+            gfa_line = None
+          if gfa_line is None:
+            raise
+        if self._vlevel == 0 and gfa_line.version == "gfa1":
+          # (nothing was checked: the same decision as at the other levels)
+          try:
+            gfapy.Line(string, vlevel=1, dialect=self._dialect)
+          except gfapy.FormatError:
+            try:
+              gfapy.Line(string, vlevel=1, version="gfa2",
+                         dialect=self._dialect)
+              gfa_line = gfapy.Line(string, vlevel=0, version="gfa2",
+                                    dialect=self._dialect)
+            except gfapy.Error:
+              pass
+          except gfapy.Error:
+            pass
       self._version = gfa_line.version
       self._version_explanation = \
           "implied by: syntax of S {} line".format(gfa_line.name)
@@ -222,8 +248,26 @@ class Creators:
   def __add_line_GFA2(self, gfa_line):
     if isinstance(gfa_line, str):
       if self.__record_type_of_string(gfa_line) == "S":
-        gfa_line = gfapy.Line(gfa_line, vlevel=self._vlevel,
-            dialect=self._dialect)
+        # the version of a segment line is recognised from its syntax, so
+        # that a GFA1 segment is reported as such; a GFA2 segment whose
+        # sequence looks like a tag is not recognised that way: the line is
+        # then read in the version of the Gfa
+        string = gfa_line
+        try:
+          gfa_line = gfapy.Line(string, vlevel=self._vlevel,
+              dialect=self._dialect)
+        except gfapy.Error:
+          gfa_line = gfapy.Line(string, vlevel=self._vlevel,
+              version="gfa2", dialect=self._dialect)
+        if gfa_line.version == "gfa1":
+          try:
+            gfa_line = gfapy.Line(string, vlevel=max(self._vlevel, 1),
+                version="gfa2", dialect=self._dialect)
+            if self._vlevel < 1:
+              gfa_line = gfapy.Line(string, vlevel=self._vlevel,
+                  version="gfa2", dialect=self._dialect)
+          except gfapy.Error:
+            pass
       else:
         gfa_line = gfapy.Line(gfa_line, vlevel=self._vlevel,
                                         version="gfa2", dialect=self._dialect)
